@@ -300,7 +300,7 @@ def random_case(rng: random.Random, n: int):
         if r < 0.8:
             return f"exp({a})"
         if r < 0.9:
-            return f"conditional(gt({a},0.5),{a},2.0)"
+            return f"conditional(gt({a},0.3),{a},2.0)"
         return f"({a}+0.5)/({a}*{a}+1.5)"
 
     itype = rng.choice(["dx", "dx", "dx", "ds", "dS", "dP"])
@@ -502,10 +502,11 @@ def random_case2(rng: random.Random, n: int):
             return f"({a})**{rng.choice(['2', '3', '1.5' if False else '2'])}"
         if r < 0.84:
             b = scal_expr(depth + 1)
-            cond = rng.choice([f"gt({a},{b})", f"lt({a},0.25)", f"And(ge({a},{b}),lt({b},1.0))", f"Or(le({a},0.0),gt({b},0.5))", f"Not(lt({a},{b}))", f"ne({a},0.5)"])
+            # thresholds that no dyadic data value can hit exactly (a discontinuity AT an evaluation point is ambiguous)
+            cond = rng.choice([f"gt({a},{b}+0.3)", f"lt({a},0.3)", f"And(ge({a},{b}-0.7),lt({b},1.1))", f"Or(le({a},-0.1),gt({b},0.7))", f"Not(lt({a},{b}+0.1))", f"ne({a},0.3)"])
             return f"conditional({cond},{a},{b})"
         if r < 0.9:
-            return rng.choice(["max_value({0},{1})", "min_value({0},{1})", "atan2({0},{1}*{1}+1.0)"]).format(a, scal_expr(depth + 1))
+            return rng.choice(["max_value({0},{1}+0.3)", "min_value({0},{1}-0.3)", "atan2({0},{1}*{1}+1.0)"]).format(a, scal_expr(depth + 1))
         if r < 0.95:
             return f"({a}/({scal_expr(depth + 1)}**2+1.25))"
         return f"(-{a})"
